@@ -69,9 +69,32 @@ func exec(t []string) string {
 		if err != nil {
 			return "err"
 		}
+		// a rollback restores LastIrreversibleHeight only when it undoes the initialisation (back to 0); the
+		// steady advance is never taken back, so any other decrease here lowers the guard
+		if l < lihLast && l != 0 {
+			pending = &hx.Violation{Kind: "last-irreversible-height-lowered-by-rollback",
+				Detail: fmt.Sprintf("rollback to %s: %d -> %d", t[1], lihLast, l)}
+		}
 		lihRolledBack = true
 		lihLast = l
 		return fmt.Sprintf("%d %d", l, d)
+	case "lihload":
+		// restart from a checkpoint: the key frame is serialised and read back
+		bl, bd, bw, bm := lihState.Fields()
+		l, d, w, m, err := lihState.Reload()
+		if err != nil {
+			return "err"
+		}
+		if l != bl || d != bd || w != bw || m != bm {
+			pending = &hx.Violation{Kind: "state-keyframe-reload-changes-fields",
+				Detail: fmt.Sprintf("LastIrreversibleHeight/DPOSStartHeight/DPOSWorkHeight/dpos %d/%d/%d/%v -> %d/%d/%d/%v", bl, bd, bw, bm, l, d, w, m)}
+		}
+		lihLast = l
+		mm := 0
+		if m {
+			mm = 1
+		}
+		return fmt.Sprintf("%d %d %d %d", l, d, w, mm)
 	case "irr":
 		out := sim.Exec(t)
 		lih = sim.N.Chain.GetState().LastIrreversibleHeight
@@ -152,6 +175,8 @@ func lihStream(g *hx.Gen) {
 				if len(out) == 2 {
 					g.Emit("lihset %s %s %d 1", out[0], out[1], h)
 				}
+			case c < 94: // restart from a checkpoint
+				g.Emit("lihload")
 			default: // roll a few heights back and go on from there
 				back := uint32(1 + r.Intn(4))
 				if back > h {
